@@ -589,6 +589,10 @@ func runC07(ctx *Ctx) error {
 		if d%6 == 5 {
 			cfg.Compatibility.OldAliasing = true
 		}
+		if d%4 == 2 {
+			// the option is documented for arrays; other type names in the list are without effect
+			cfg.OutputOptions.DisableTypeAliasesForType = []string{"array", "object", "string", "integer"}
+		}
 		mode := fmt.Sprintf("nullable-type=%v", cfg.OutputOptions.NullableType)
 		if cfg.Compatibility.OldAliasing {
 			mode += ",old-aliasing"
@@ -598,6 +602,9 @@ func runC07(ctx *Ctx) error {
 		}
 		if cfg.Compatibility.DisableRequiredReadOnlyAsPointer {
 			mode += ",ro-no-pointer"
+		}
+		if len(cfg.OutputOptions.DisableTypeAliasesForType) > 0 {
+			mode += ",no-array-aliases"
 		}
 		p := kit.Add(&RunPkg{Name: fmt.Sprintf("c07_%d", d), Doc: doc, Cfg: cfg})
 		docs = append(docs, dc{doc, p, mode, r.Fork()})
@@ -623,9 +630,40 @@ func runC07(ctx *Ctx) error {
 			ig := &c07Inst{r: d.r, schemas: schemas, classes: map[string]bool{}}
 			v := ig.value(schemas[name].(J), 3)
 			data, _ := json.Marshal(v)
-			resp, err := d.p.Call(J{"do": "json", "type": name, "data": string(data)})
+			req := J{"do": "json", "type": name, "data": string(data)}
+			// an instance with additional members is also decoded into a value that has just held another document with
+			// other additional members (a decoder loop, a pooled value): the members of the earlier document are gone
+			reused := false
+			if sch, ok := schemas[name].(J); ok {
+				if vo, isObj := v.(map[string]interface{}); isObj && sch["additionalProperties"] != nil && sch["additionalProperties"] != false {
+					props, _ := sch["properties"].(J)
+					first := map[string]interface{}{}
+					for k, x := range vo {
+						first[k] = x
+						if _, declared := props[k]; !declared {
+							first[k+"_zzfirst"] = x
+							reused = true
+						}
+					}
+					// (an object without declared members is a Go map, and encoding/json itself adds to a map that is there)
+					if reused && len(props) > 0 && sch["allOf"] == nil && sch["oneOf"] == nil && sch["anyOf"] == nil {
+						fb, _ := json.Marshal(first)
+						req["first"] = string(fb)
+					} else {
+						reused = false
+					}
+				}
+			}
+			resp, err := d.p.Call(req)
 			if err != nil {
 				return err
+			}
+			if or, ok := resp["out_reused"].(string); ok && reused {
+				ctx.Res.Count("instance:decoded-into-a-used-value")
+				if o1, _ := resp["out"].(string); !jsonEqualExact(or, o1) {
+					ctx.Res.Violate("reused-value:"+d.mode, fmt.Sprintf("%s decoded into a value that held another document before is encoded as %s; decoded into a fresh value, as %s", string(data), or, o1),
+						J{"doc": d.doc, "cfg": d.p.Cfg, "type": name, "instance": string(data), "first": req["first"]})
+				}
 			}
 			ctx.Res.Eval(J{"doc": Hash(d.doc), "type": name, "instance": Hash(string(data))}, true)
 			ctx.Res.Count("mode:" + d.mode)
